@@ -8,10 +8,17 @@ COMMON_NOTE = ("Trusted base: the govc VC generator and go/ssa (T-gen), z3 4.8.1
   "Every assumption actually used is listed in the evidence file.")
 
 CLAIMS = {
- "C01": ("proof", "Per-node obligations of election safety proved for all inputs: a vote is granted at most once per term and only after it is durable (onVoteRequest, setVotedFor, value.set), an election bumps the term by one, votes for self durably and needs floor(voters/2)+1 votes (startElection, numVoters with a loop invariant over the map range, quorum), leadership is assumed only on the vote that takes votesNeeded from 1 to 0 and never on an error reply (onVoteResult), and a higher term always leads to follower state. Composition across nodes (quorum intersection) is assumed (PA2, PA3).", "4 C01"),
+ "C01": ("proof", "Per-node obligations of election safety proved for all inputs: a vote is granted at most once per term and only after it is durable (onVoteRequest, setVotedFor, value.set), an election bumps the term by one, votes for self durably, allocates a fresh reply channel and needs floor(voters/2)+1 votes (startElection, numVoters with a loop invariant over the map range, quorum), leadership is assumed only on the vote that takes votesNeeded from 1 to 0 and never on an error reply (onVoteResult), and a higher term always leads to follower state (vote, append handlers). Composition across nodes (quorum intersection) is assumed (PA2, PA3).", "4 C01"),
+ "C02": ("proof", "Per-node obligations proved: up-to-date rule of onVoteRequest; follower commit rule (canCommit, append handler: commit only <= leader commit, entry present with the request's term, flushed); truncation only at a genuine conflict and never below the matched prefix (loop invariant of the append handler, under PA1); majorityMatchIndex returns a value stored by floor(v/2)+1 voters (unbounded proof with a counting library; sort.Sort trusted). Leader Completeness across nodes is assumed.", "4 C02"),
+ "C04": ("proof", "Append handler proved: success implies the consistency check held; every entry of the request is afterwards in the log at its index with its term; the prefix up to prevLogIndex is untouched; appendEntry is only called with index == lastLogIndex+1 (its assert is unreachable). The cross-node induction is assumed.", "4 C04"),
  "C05": ("proof", "The property is per node and per call: proved for every voter state and request (64-bit wrap-around modelled exactly): granted => (term, votedFor) == (req.term, req.src) in memory and on the ghost disk before the reply is produced; the term never decreases; a recorded vote is not replaced within a term; value.set is atomic on the ghost file system (old pair or new pair, never none/both).", "4 C05"),
- "C11": ("proof", "follower.onTimeout / canStartElection / onTimeoutNowRequest proved: a node campaigns only if it is bootstrapped and a voter of its latest configuration; timeout-now is refused by a non-voter without changing any state.", "4 C11"),
- "C17": ("proof", "Leader-stability clause proved on onVoteRequest: a non-transfer request from a node other than the known leader is refused with leaderKnown and changes neither term, vote nor state. The liveness sentence of C17 is not decidable by contracts (DESIGN section 5).", "4 C17"),
+ "C06": ("proof", "Follower half proved: on every success reply of the append handler everything up to lastLogIndex is flushed (the deferred closure runs on all exits), and the commit index never passes the flushed index. Voter counting: see C02 (majorityMatchIndex). Leader flush-before-advance and the cross-node count are not yet under contract (listed).", "4 C06"),
+ "C08": ("proof", "Follower side proved: adopting a configuration entry sets Latest to it and Committed to its predecessor, truncation at or below Latest reverts to Committed, commit promotes Latest; Latest is always the newest configuration entry of the log (loop invariant CfgInLog of the append handler, under PA1). Leader-side rules (one voter delta, commit-ready guard) are being added.", "4 C08"),
+ "C11": ("proof", "follower.onTimeout / canStartElection / onTimeoutNowRequest proved: a node campaigns only if it is bootstrapped and a voter of its latest configuration; timeout-now is refused by a non-voter without changing any state; a leader that commits a configuration in which it is no voter steps down; ErrNodeRemoved shutdown only after that configuration is committed; non-voters are never counted by majorityMatchIndex.", "4 C11"),
+ "C13": ("proof", "Segment level proved byte-exactly against the representation invariant SegInv (offset table monotone, size == last offset, data below the table): at/offset/setOffset/lastIndex/available/get/append/removeGTE. Log level proved for the read-only operations over a ghost segment set (PrevIndex, LastIndex, Count, Contains, segment, Get, ViewAt). CommitN is a bounded stand-in (at most 2 segments visited). Append roll-over, RemoveLTE/GTE, Reset, GetN, Open are not yet under contract.", "4 C13"),
+ "C14": ("proof", "Power-loss model (ghost durable image per file, T-mmap): crash invariants proved at every program point of segment.append, sync and removeGTE: whichever header value reaches the disk, everything it exposes is durable and equal to memory; sync writes the header only after the data flush; after a completed sync/removeGTE the durable header equals the in-memory count. CommitN: bounded stand-in. Recovery (openSegments) not yet under contract.", "4 C14"),
+ "C17": ("proof", "Leader-stability clause proved on onVoteRequest (a non-transfer request from a node other than the known leader is refused and changes nothing) and on the append handler (a stale-term request changes nothing). The liveness sentence of C17 is not decidable by contracts (DESIGN section 5).", "4 C17"),
+ "C19": ("proof", "Ordering clauses proved as postconditions of the vote, append and timeout-now handlers and the config/commit helpers: term and commit index never decrease; snapshot index <= commit index <= last log index; log well-formedness (LogWF) preserved. Other handlers are being added.", "4 C19"),
 }
 
 TECH = "contract-based deductive verification: weakest-precondition style symbolic execution of go/ssa with callee contracts, obligations discharged by z3/cvc5"
